@@ -855,6 +855,11 @@ func normField(base *Term, name string, v ssa.Value) *Term {
 	switch base.Op {
 	case "new", "deref":
 		return normField(base.Args[0], name, v)
+	case "cell":
+		// a composite literal whose address escapes: its parts are where they were stored
+		if len(base.Args) == 1 && base.Args[0].Op == "upd" {
+			return normField(base.Args[0], name, v)
+		}
 	case "upd":
 		for _, a := range base.Args[1:] {
 			if a.Name == name {
@@ -1233,8 +1238,26 @@ func (tm *Terms) snapshot(fr *Frame, a *ssa.Alloc, path []string, at ssa.Instruc
 		} else {
 			tm.busy[k] = true
 			var alts []*Term
-			for _, sv := range ai.stored {
-				alts = append(alts, tm.Of(fr, sv))
+			// whole-variable stores; stores to parts of the variable (fields of a composite literal whose address
+			// escapes) keep their place: the cell's content is then upd(whole, part := any value ever stored there)
+			type part struct {
+				path []string
+				vals []*Term
+			}
+			parts := map[string]*part{}
+			for _, d := range ai.defs {
+				switch {
+				case d.kind == "store" && len(d.path) == 0:
+					alts = append(alts, tm.Of(fr, d.val))
+				case d.kind == "store":
+					pk := pathKey(d.path)
+					if parts[pk] == nil {
+						parts[pk] = &part{path: d.path}
+					}
+					parts[pk].vals = append(parts[pk].vals, tm.Of(fr, d.val))
+				case d.kind == "havoc" || d.kind == "pwrite":
+					alts = append(alts, mk("havoc", tm.W.instrPos(d.instr), a))
+				}
 			}
 			for _, cs := range ai.storedIn {
 				alts = append(alts, tm.Of(tm.Root(cs.fn), cs.val))
@@ -1243,7 +1266,49 @@ func (tm *Terms) snapshot(fr *Frame, a *ssa.Alloc, path []string, at ssa.Instruc
 			if len(alts) == 0 {
 				alts = append(alts, mk("zero", "", a))
 			}
-			cell = mk("cell", a.Comment+"@"+fnName(a.Parent()), a, mkPhi(a, alts...))
+			content := mkPhi(a, alts...)
+			if len(parts) > 0 {
+				var pks []string
+				for pk := range parts {
+					pks = append(pks, pk)
+				}
+				sort.Strings(pks)
+				var build func(prefix []string) []*Term
+				build = func(prefix []string) []*Term {
+					var out []*Term
+					done := map[string]bool{}
+					for _, pk := range pks {
+						pt := parts[pk]
+						if len(pt.path) <= len(prefix) || !hasPrefix(pt.path, prefix) {
+							continue
+						}
+						seg := pt.path[len(prefix)]
+						if done[seg] {
+							continue
+						}
+						done[seg] = true
+						here := append(append([]string{}, prefix...), seg)
+						var vals []*Term
+						if e := parts[pathKey(here)]; e != nil {
+							vals = e.vals
+						}
+						sub := build(here)
+						var val *Term
+						switch {
+						case len(vals) > 0 && len(sub) == 0:
+							val = mkPhi(a, vals...)
+						case len(vals) > 0:
+							val = mk("upd", "", a, append([]*Term{mkPhi(a, vals...)}, sub...)...)
+						default:
+							val = mk("upd", "", a, append([]*Term{mk("zero", "", a)}, sub...)...)
+						}
+						out = append(out, mk("fset", seg, a, val))
+					}
+					return out
+				}
+				content = mk("upd", "", a, append([]*Term{content}, build(nil)...)...)
+			}
+			cell = mk("cell", a.Comment+"@"+fnName(a.Parent()), a, content)
 			tm.memo[k] = cell
 		}
 		t := cell
@@ -1433,7 +1498,13 @@ func dirtyFor(t *Term, cf *Frame) bool {
 	}
 	return t.Any(func(x *Term) bool {
 		switch x.Op {
-		case "allocref", "cellref", "cell", "unknown", "havoc", "free":
+		case "cell":
+			// the flow-insensitive content of an escaping variable / composite literal is the same wherever it is read
+			if al, ok := x.V.(*ssa.Alloc); ok && cf != nil && al.Heap && al.Comment == "complit" {
+				return false
+			}
+			fallthrough
+		case "allocref", "cellref", "unknown", "havoc", "free":
 			if v, ok := x.V.(ssa.Instruction); ok && callerFn(v.Parent()) {
 				return false
 			}
